@@ -171,3 +171,69 @@ Proof.
   destruct (quiescent_state_is_empty _ _ _ _ R NN) as [E1 [E2 [E3 [E4 E5]]]].
   unfold sizes. rewrite E1, E2, E3, E4, NN. reflexivity.
 Qed.
+
+(* --- register, then CloseProxy: every table is what it was before the registration --- *)
+Lemma nm_del_set_absent : forall V n (v : V) l, nm_get n l = None -> nm_del n (nm_set n v l) = l.
+Proof.
+  intros V n v l H. unfold nm_del, nm_set, al_set. simpl. rewrite String.eqb_refl.
+  rewrite (al_del_absent String.eqb_spec); apply (al_del_absent String.eqb_spec) || idtac; try assumption.
+  rewrite (al_del_absent String.eqb_spec) by assumption. assumption.
+Qed.
+
+Theorem register_then_close_restores : forall ranges maxp maxpool s c q s1 real s2,
+  reach ranges maxp maxpool s -> group_free_req q ->
+  y_register maxp s c q = Some (s1, ROk real) -> y_close maxp s1 c (q_name q) = Some s2 ->
+  sr_res s2 = sr_res s /\ sr_grp s2 = sr_grp s /\ sr_names s2 = sr_names s /\ sr_squat s2 = sr_squat s /\
+  pm_eqv (sr_tcp s) (sr_tcp s2) /\ pm_eqv (sr_udp s) (sr_udp s2) /\
+  (forall c0, ss_get c0 (sr_sess s2) = ss_get c0 (sr_sess s)) /\ fp s2 (q_name q) = [].
+Proof.
+  intros ranges maxp maxpool s c q s1 real s2 R G H1 H2. pose proof (reach_wf _ _ _ _ R) as W.
+  pose proof (y_register_wf _ _ _ _ _ _ _ W (allowed_no0 ranges) G H1) as W1.
+  pose proof (y_close_wf _ _ _ _ _ _ W1 H2) as W2.
+  unfold y_register in H1.
+  destruct (ss_get c (sr_sess s)) as [ct|] eqn:SC; [|discriminate].
+  destruct ((0 <? maxp) && (maxp <? ss_used ct + weight (q_type q))); [discriminate|].
+  destruct (nm_get (q_name q) (sr_names s)) as [c0|] eqn:NN; [discriminate|].
+  destruct (px_run s q) as [[s1' [o|e1]]|] eqn:PR; [| |discriminate]; [|discriminate].
+  destruct (px_run_spec _ s q s1' _ G (wf_tcp _ _ W) (wf_udp _ _ W) (allowed_no0 ranges) PR)
+    as [[S1 [S2 [S3 S4]]] [Pt [Pu [OK [OT [ND [AB [ER [PE _]]]]]]]]].
+  destruct (q_addok q); [|discriminate]. injection H1 as <- _.
+  pose proof OK as [ON [OG [OW SK]]].
+  assert (PN : nm_get (q_name q) (ss_pxys ct) = None).
+  { destruct (nm_get (q_name q) (ss_pxys ct)) as [o'|] eqn:P; [|reflexivity].
+    pose proof (wf_n1 _ _ W _ _ _ _ SC P). congruence. }
+  unfold y_close in H2. unsr. rewrite ss_get_set_eq in H2. cbn [ss_pxys sess_with] in H2.
+  rewrite nm_get_set_eq in H2. injection H2 as <-.
+  match goal with |- context [px_close ?st o] => set (sx := st) end.
+  destruct (px_close_spec sx (q_name q) o OK) as [CR [[C1 [C2 [C3 C4]]] [CT CU]]].
+  assert (RR : sr_res (px_close sx o) = sr_res s).
+  { rewrite CR. unfold sx. unsr. rewrite ER. apply res_del_all_claim.
+    + intros k Hk. apply AB. apply in_rev. assumption.
+    + apply NoDup_rev. assumption.
+    + intros k Hk. left. apply -> in_rev. assumption.
+    + intros k Hk. apply in_rev. assumption. }
+  unsr. csplit.
+  - exact RR.
+  - rewrite C2. unfold sx. unsr. assumption.
+  - rewrite C3, ON. unfold sx. unsr. rewrite S3. apply nm_del_set_absent. assumption.
+  - rewrite C1. unfold sx. unsr. assumption.
+  - rewrite CT. unfold sx. unsr. unfold pm_effect in PE. destruct (po_type o); cbn [is_tcp];
+      try (destruct PE as [E1 E2]; rewrite E1; apply pm_eqv_refl);
+      try (destruct PE as [E1 [E2 [E3 E4]]]; rewrite ?E3; try apply pm_eqv_refl).
+    rewrite E1. apply (take_release_eqv (pm_allowed ranges)); [apply (wf_tcp _ _ W)|assumption].
+  - rewrite CU. unfold sx. unsr. unfold pm_effect in PE. destruct (po_type o); cbn [is_udp];
+      try (destruct PE as [E1 E2]; rewrite E2; apply pm_eqv_refl);
+      try (destruct PE as [E1 [E2 [E3 E4]]]; rewrite ?E3; try apply pm_eqv_refl).
+    rewrite E1. apply (take_release_eqv (pm_allowed ranges)); [apply (wf_udp _ _ W)|assumption].
+  - intros c1. rewrite C4. unfold sx. unsr. rewrite S4.
+    assert (DD : nm_del (q_name q) (ss_pxys ct) = ss_pxys ct) by (apply (al_del_absent String.eqb_spec); exact PN).
+    rewrite String.eqb_refl. change (al_del String.eqb (q_name q) (ss_pxys ct)) with (nm_del (q_name q) (ss_pxys ct)). rewrite DD, DD.
+    assert (EU : (if 0 <? maxp then (if 0 <? maxp then ss_used ct + weight (q_type q) else ss_used ct) - po_w o
+                  else (if 0 <? maxp then ss_used ct + weight (q_type q) else ss_used ct)) = ss_used ct).
+    { rewrite OW, OT. destruct (0 <? maxp); lia. }
+    cbn [ss_used sess_with]. rewrite EU.
+    destruct (Z.eq_dec c1 c) as [->|N].
+    + rewrite ss_get_set_eq. rewrite SC. f_equal. destruct ct; reflexivity.
+    + rewrite ss_get_set_neq by assumption. rewrite ss_get_set_neq by assumption. reflexivity.
+  - apply (fp_empty_of_unregistered _ _ _ W2). unsr. rewrite C3, ON. unfold sx. unsr. apply nm_get_del_eq.
+Qed.
